@@ -734,7 +734,7 @@ proof fn witness_resource_bounds()
                 if fv >= kk { lemma_first_value(attrs0, 0, kk); }
             }
         }
-//@@ before /if !is_value_set && is_string \{/
+//@@ before /if [^{;]*is_string \{/
     proof {
         assert(k == attrs0.len());
         assert(!is_value_set ==> fv >= attrs0.len());
@@ -743,7 +743,12 @@ proof fn witness_resource_bounds()
 //@@ after /let mut first_paragraph = true;/
         let ghost mut st = txt_init();
         let ghost tot = cell_scan(evs, p0 as int, txt_init());
-        proof { assert(text_route(attrs0)); }
+        proof {
+            // ODF 19.379: "If the office:string-value attribute is not present, the element content defines the value" -- the content is
+            // read as the value only when NO value attribute was met and the value type is `string`
+            //# C04.ods_content_is_the_value_only_without_a_value_attribute
+            assert(text_route(attrs0));
+        }
 //@@ before? /return Ok\(\(Data::String\(s\), formula, true\)\);/
                     proof { lemma_gd_value(Data::String(s), evs, p0, attrs0); }
 //@@ before? /Ok\(\(val, formula, false\)\)/
@@ -1820,8 +1825,8 @@ impl Frame {
                         row_scan(evs, p0) == row_scan(evs, p), is_cell_start(evs[p as int]), e.ev() == evs[p as int],
                         cells@.len() - old(cells)@.len() == formulas@.len() - old(formulas)@.len(),
                     ensures
-                        // what unit ods takes on trust from its wrapper `verif_parse_repeats` (there `parse_usize` is uninterpreted): the
-                        // count is the number the attribute VALUE spells -- references resolved (`parse_usize` over `unesc`), default 1
+                        // (also proved on the same text in unit ods: ods/read_row, same label) the count is the number the attribute
+                        // VALUE spells -- references resolved (`parse_usize` over `unesc`) -- default 1
                         //# C04.row_repeat_count_is_the_unescaped_attribute_value
                         rep_scan(evs[p as int].attrs) == Some(repeats),
                     decreases __it1.rem().len(),
